@@ -346,6 +346,7 @@ func genC13(c *Ctx) {
 	genC13Repro(c, f)
 	genC13Walks(c, f)
 	genC13Waits(c, f)
+	genC13Waits2(c, f)
 }
 
 var _ = prng.New
